@@ -142,12 +142,12 @@ func (ex *Exec) call(fv *FuncV, args []Value) Value {
 			}
 			// recovered
 			if fn.Recover != nil {
-				ret = ex.runBlocks(fr, fn.Recover, nil)
+				ret, _ = ex.runBlocks(fr, fn.Recover, nil, nil)
 			} else {
 				ret = ex.zeroResults(fn)
 			}
 		}()
-		ret = ex.runBlocks(fr, fn.Blocks[0], nil)
+		ret, _ = ex.runBlocks(fr, fn.Blocks[0], nil, nil)
 	}()
 	ex.stack = ex.stack[:depth-1]
 	return ret
@@ -277,7 +277,10 @@ func (ex *Exec) callClosure(fv *FuncV, args []Value) Value { return ex.call(fv, 
 
 // ---------- block interpreter ----------
 
-func (ex *Exec) runBlocks(fr *frame, b *ssa.BasicBlock, pred *ssa.BasicBlock) Value {
+// runBlocks interprets from block b. With stop != nil it returns (nil, last block) when control
+// is about to enter stop (used for the arms of a merge region).
+func (ex *Exec) runBlocks(fr *frame, b *ssa.BasicBlock, pred *ssa.BasicBlock, stop *ssa.BasicBlock) (Value, *ssa.BasicBlock) {
+	skipPhis := false
 	if fr.visits == nil {
 		fr.visits = map[int]int{}
 	}
@@ -293,7 +296,15 @@ func (ex *Exec) runBlocks(fr *frame, b *ssa.BasicBlock, pred *ssa.BasicBlock) Va
 		}
 		// phis first (parallel assignment)
 		nphi := 0
-		if pred != nil {
+		if skipPhis {
+			for _, in := range b.Instrs {
+				if _, ok := in.(*ssa.Phi); !ok {
+					break
+				}
+				nphi++
+			}
+			skipPhis = false
+		} else if pred != nil {
 			pi := -1
 			for i, p := range b.Preds {
 				if p == pred {
@@ -323,27 +334,40 @@ func (ex *Exec) runBlocks(fr *frame, b *ssa.BasicBlock, pred *ssa.BasicBlock) Va
 				next = b.Succs[0]
 			case *ssa.If:
 				c := ex.get(fr, x.Cond).(*smt.Term)
+				if !c.IsConst() {
+					if j := ex.mergeJoin(fr, b); j != nil && j != stop && ex.tryMerge(fr, b, c, j) {
+						next = j
+						skipPhis = true
+						break
+					}
+				}
 				if ex.Branch(c) {
 					next = b.Succs[0]
 				} else {
 					next = b.Succs[1]
 				}
 			case *ssa.Return:
+				if stop != nil {
+					panic(&mergeAbort{"return inside merge region"})
+				}
 				switch len(x.Results) {
 				case 0:
-					return nil
+					return nil, nil
 				case 1:
-					return ex.get(fr, x.Results[0])
+					return ex.get(fr, x.Results[0]), nil
 				}
 				a := make(AggV, len(x.Results))
 				for i, r := range x.Results {
 					a[i] = ex.get(fr, r)
 				}
-				return a
+				return a, nil
 			case *ssa.Panic:
 				v := ex.get(fr, x.X)
 				panic(&goPanic{val: v, where: ex.where()})
 			case *ssa.RunDefers:
+				if stop != nil {
+					panic(&mergeAbort{"rundefers inside merge region"})
+				}
 				ex.runDefers(fr)
 			default:
 				ex.exec(fr, in)
@@ -351,6 +375,9 @@ func (ex *Exec) runBlocks(fr *frame, b *ssa.BasicBlock, pred *ssa.BasicBlock) Va
 		}
 		if next == nil {
 			panic(ex.unsupported("block without terminator in %s", fr.fn))
+		}
+		if stop != nil && next == stop {
+			return nil, b
 		}
 		pred, b = b, next
 	}
@@ -485,6 +512,9 @@ func (ex *Exec) subArray(arr *Cell, off, n int, t types.Type) *Cell {
 }
 
 func (ex *Exec) pushDefer(fr *frame, cc *ssa.CallCommon) {
+	if fr.region > 0 {
+		panic(&mergeAbort{"defer inside merge region"})
+	}
 	args := make([]Value, 0, len(cc.Args)+1)
 	var fv *FuncV
 	if cc.IsInvoke() {
@@ -535,6 +565,9 @@ func (ex *Exec) loadPtr(pv Value) Value {
 func (ex *Exec) loadIdx(arr *Cell, idx *smt.Term, lo, hi int) Value {
 	if idx.IsConst() {
 		return ex.load(ex.kid(arr, int(idx.Val)))
+	}
+	if smt.IsIteConst(idx) {
+		return ex.mapIteValue(idx, func(k *smt.Term) Value { return ex.load(ex.kid(arr, int(k.Val))) })
 	}
 	if hi <= lo {
 		lo, hi = 0, len(arr.Kids)
@@ -655,6 +688,9 @@ func (ex *Exec) indexVal(fr *frame, x *ssa.Index) Value {
 		if idx.IsConst() {
 			return b[idx.Val]
 		}
+		if smt.IsIteConst(idx) {
+			return ex.mapIteValue(idx, func(k *smt.Term) Value { return b[k.Val] })
+		}
 		var res Value
 		for i := len(b) - 1; i >= 0; i-- {
 			if res == nil {
@@ -674,6 +710,9 @@ func (ex *Exec) indexVal(fr *frame, x *ssa.Index) Value {
 func (ex *Exec) strIndex(s StrV, idx *smt.Term) *smt.Term {
 	if idx.IsConst() {
 		return s.B[idx.Val]
+	}
+	if smt.IsIteConst(idx) {
+		return ex.ctx.MapIte(idx, func(k *smt.Term) *smt.Term { return s.B[k.Val] })
 	}
 	res := s.B[len(s.B)-1]
 	for i := len(s.B) - 2; i >= 0; i-- {
@@ -817,4 +856,12 @@ func (ex *Exec) typeAssert(x *ssa.TypeAssert, v Value) Value {
 			val: IfaceV{T: types.Typ[types.String], V: ex.mkStr("interface conversion")}})
 	}
 	return res
+}
+
+// mapIteValue maps the constant leaves of an index ite-tree to values and merges them.
+func (ex *Exec) mapIteValue(t *smt.Term, f func(*smt.Term) Value) Value {
+	if t.Op == smt.OpIte {
+		return ex.ite(t.Args[0], ex.mapIteValue(t.Args[1], f), ex.mapIteValue(t.Args[2], f))
+	}
+	return f(t)
 }
